@@ -150,8 +150,8 @@ func recvName(fd *ast.FuncDecl) string {
 
 type bodyFx struct {
 	mapWrite, appendTo, accum, concat, other, exits int
-	appendTargets                         map[string]bool
-	calls                                 map[string]bool
+	appendTargets                                   map[string]bool
+	calls                                           map[string]bool
 }
 
 func isMap(info *types.Info, e ast.Expr) bool {
@@ -594,6 +594,9 @@ func main() {
 							ty = types.TypeString(o.Type(), func(p *types.Package) string { return p.Name() })
 						}
 						vars = append(vars, pkgVar{t, n.Name, fname, ty})
+						if i := indexOfIdent(vs.Names, n); i >= 0 && len(vs.Values) == len(vs.Names) {
+							varInit[t+"."+n.Name] = text(vs.Values[i])
+						}
 					}
 				}
 			}
@@ -627,6 +630,12 @@ func main() {
 					continue
 				}
 				writes = append(writes, writesIn(info, fname, fn, fd.Body, isTarget)...)
+				fnKey := ""
+				if fo, ok := info.Defs[fd.Name].(*types.Func); ok {
+					fnKey = fo.FullName()
+					fdecls[fnKey] = fdecl{fnKey, t, fname, fn, len(fd.Body.List)}
+				}
+				collectUses(fset, info, fname, fn, fnKey, fd.Body, isTarget)
 			}
 		}
 	}
@@ -652,10 +661,21 @@ func main() {
 			}
 			rel, _ := filepath.Rel(a.Repo, p)
 			writes = append(writes, syntacticWrites(f, rel, isTarget, varSet)...)
+			syntacticRefs(fset, f, rel, isTarget)
 		}
 	}
 
 	emit(a, sites, vars, writes)
+	emitResets(a)
+}
+
+func indexOfIdent(ns []*ast.Ident, n *ast.Ident) int {
+	for i, m := range ns {
+		if m == n {
+			return i
+		}
+	}
+	return -1
 }
 
 func hasFuncLit(e ast.Expr) bool {
